@@ -43,6 +43,10 @@ ROLES = {
     "files/model.json.tmp": "ModelJsonTmp",
     "files/samples_summary.json.tmp": "SummaryTmp",
     "files/samples_info.json.tmp": "SamplesInfoTmp",
+    "files/verif_attr.json": "Attr",
+    "files/verif_attr.json.tmp": "AttrTmp",
+    "files/verif_result.json": "ResultExtra",
+    "files/verif_result.json.tmp": "ResultExtraTmp",
     "model.start": "ModelStart",
     "metadata": "Metadata",
     "search.log": "Log",
@@ -67,8 +71,20 @@ class Analysis(af.Analysis):
     def __init__(self, tag):
         self.tag = tag
         self.evals = 0
+        self.hook = None
+
+    def save_attributes(self, paths):
+        # a user file written before the search starts (like data.json of a real analysis)
+        paths.save_json("verif_attr", {"what": "attributes of the analysis"})
+
+    def save_results(self, paths, result):
+        # a user result file: must be on disk before `.completed`
+        paths.save_json("verif_result", {
+            "log_likelihood": result.samples_summary.max_log_likelihood_sample.log_likelihood})
 
     def log_likelihood_function(self, instance):
+        if self.hook is not None:
+            self.hook.likelihood_call()
         self.evals += 1
         base = -0.5 * ((instance.centre - 0.3) ** 2 + 3.0 * (instance.sigma - 0.6) ** 2
                        + 0.1 * instance.centre * instance.sigma)
@@ -142,6 +158,7 @@ class Hook:
         self.extra = {}
         self.ck = None    # index of the mutation event at which the process dies
         self.occ = 0
+        self.ll_calls = 0
 
     def rel(self, p):
         return p[len(self.root):]
@@ -191,6 +208,44 @@ class Hook:
         self.trace.append([kind, rel] if src is None else [kind, rel, src])
         self.last = (kind, path)
 
+    def likelihood_call(self):
+        """Crash kind LL: the process dies at its occ-th likelihood evaluation (no file-system event involved)."""
+        if self.active and self.crash is not None and self.crash.get("kind") == "LL":
+            n = self.ll_calls
+            self.ll_calls += 1
+            if n == self.crash.get("occ", 0):
+                self.ck = len(self.trace)
+                self.die()
+
+    def check_rename_source(self, src):
+        """os.replace(tmp, final) must move a closed, complete file: anything else re-opens the truncation window."""
+        self.active = False
+        why = None
+        try:
+            for fd in os.listdir("/proc/self/fd"):
+                try:
+                    if os.readlink("/proc/self/fd/" + fd) == src:
+                        why = "still open"
+                except OSError:
+                    pass
+            if why is None:
+                if src.endswith(".zip.tmp"):
+                    with zipfile.ZipFile(src) as f:
+                        if f.testzip() is not None:
+                            why = "corrupt archive"
+                elif src.endswith(".dill.tmp"):
+                    with open(src, "rb") as f:
+                        dill.load(f)
+                elif src.endswith(".json.tmp"):
+                    with open(src) as f:
+                        json.load(f)
+        except Exception as e:  # noqa
+            why = "unreadable: " + type(e).__name__
+        finally:
+            self.active = True
+        if why:
+            self.extra.setdefault("bad_rename", []).append([self.rel(src), why])
+
     def cut_half(self):
         kind, path = self.last
         if kind in ("W", "ZW", "ZTW", "A") and os.path.exists(path):
@@ -235,6 +290,7 @@ class Hook:
                 s = self.full(src, args[2])
                 d = self.full(dst, args[3])
                 if d.startswith(self.root) and s.startswith(self.root):
+                    self.check_rename_source(s)
                     self.event("MV", d, src=self.rel(s))
         except SystemExit:
             raise
@@ -279,6 +335,7 @@ def child(case, outdir, run_index, crash, report_path):
         model = make_model()
         hook = Hook(outdir, crash, report_path)
         hook.extra = {"identifier": None}
+        analysis.hook = hook
         sys.addaudithook(hook)
         rep = {}
         try:
@@ -292,6 +349,7 @@ def child(case, outdir, run_index, crash, report_path):
             rep["outcome"] = "exc:" + exc_name(e)
             rep["msg"] = str(e)[:200]
         rep["trace"] = hook.trace
+        rep["bad_rename"] = hook.extra.get("bad_rename")
         rep["evals"] = analysis.evals
         rep["truncated"] = None
         with open(report_path, "w") as f:
@@ -314,6 +372,11 @@ def tag_of_ll(x):
 def file_tag(role, path):
     """(valid, tag): content-based view of result-bearing files."""
     try:
+        if role in ("ResultExtra", "ResultExtraTmp"):
+            return True, tag_of_ll(json.load(open(path))["log_likelihood"])
+        if role in ("Attr", "AttrTmp"):
+            json.load(open(path))
+            return True, None
         if role in ("Summary", "SummaryTmp"):
             d = json.load(open(path))
             ll = d["arguments"]["max_log_likelihood_sample"]["arguments"]["log_likelihood"]
@@ -469,6 +532,7 @@ def run_history(case, idx):
             "trace": canon_trace(rep.get("trace", [])),
             "nevents": len(rep.get("trace", [])),
             "crash_index": rep.get("crash_index"),
+            "bad_rename": rep.get("bad_rename"),
             "truncated": [role_of(rep["truncated"][0]), rep["truncated"][1]] if rep.get("truncated") else None,
             "evals": rep.get("evals"),
             "result": res,
